@@ -10,6 +10,7 @@ import itertools
 from mc import domains as D
 from mc.engine import InputPart, Viol
 from mc.props.common import IT, PT, Textgrid, PE, errors, call, ents, canon, wellformed
+from mc.props import live, tierops
 from praatio import praatio_scripts
 
 G = tuple(x / 4 for x in range(0, 9))  # 0 .. 2 step 0.25
@@ -207,7 +208,18 @@ def parts(tier):
                         continue
                     yield (D.labelled(A, "abc"), D.labelled(B, "xyz"), fi)
 
+    hseeds = [("I", "t", 0.0, 4.0, D.labelled(x)) for x in D.interval_sets((0.0, 1.0, 1.25, 2.0, 3.0), 2)] + \
+             [("P", "t", 0.0, 4.0, D.labelled_points(x)) for x in D.point_sets((0.0, 1.0, 1.25, 2.0, 3.0), 2)]
+    hothers = {"I": tierops.OTHERS_I, "P": tierops.OTHERS_P}
+    hvals = (0.0, 0.75, 1.0, 2.25, 3.0)
+    reuse = InputPart(
+        "reference-reuse", lambda: live.tier_history_cases(hseeds, hothers, hvals),
+        lambda c: live.check_tier_history(c, hothers, hvals),
+        rule="one live tier is used as dejitter reference / receiver, mutated in place (every deleteEntry / insertEntry), and used again: "
+             "the result must equal the result with a freshly built tier holding the same entries (the reference's CURRENT timestamps decide)",
+        bounds={"seed_tiers": len(hseeds)}, chunk=16)
     return [
+        reuse,
         InputPart("dejitter", gen_dej, _check_dejitter,
                   rule="all interval sets (<=2) / point subsets on the quarter grid [0,2] x all reference tiers with <=2 (point) or 0/2/4 "
                        "(interval) boundary times x maxDifference in {0.25 = exactly one grid step, 0.3, 0.5}: every timestamp moves to a "
